@@ -656,7 +656,7 @@ class E2E:
             raise RunTimeout()
 
         old = signal.signal(signal.SIGALRM, _alarm)
-        signal.setitimer(signal.ITIMER_REAL, self.timeout)
+        signal.setitimer(signal.ITIMER_REAL, self.timeout, 0.5)  # repeating: a first alarm swallowed at the recursion limit is followed by another
         try:
             try:
                 res = mloda.run_all(list(feats), compute_frameworks={fw}, plugin_collector=F.collector({root, *classes}), function_extender={tr})
